@@ -458,8 +458,11 @@ def drawn_decimal(draw):
 @st.composite
 def buffer_cases(draw):
     d = D(draw)
-    data = [d.choice([d.int(1, 255), d.int(32, 126), 10, 0]) if d.pct() < 12 else d.int(32, 126) for _ in range(d.int(0, 24))]
-    return {'kind': 'buffer', 'w': d.choice([64, 32]), 'data': data, 'fill': d.int(0, 255), 'count': d.int(0, 12), 'op': d.choice(['input_line', 'print_text', 'print_line', 'fill', 'copy'])}
+    # lengths incl. the multiples of 16 (a length is a hex vector: its low hex is 0 there) - the buffers hold 40 bytes
+    nd = d.choice([d.int(0, 24), d.int(0, 24), 15, 16, 17, 32, 33])
+    data = [d.choice([d.int(1, 255), d.int(32, 126), 10, 0]) if d.pct() < 12 else d.int(32, 126) for _ in range(nd)]
+    count = d.choice([d.int(0, 12), d.int(0, 12), 15, 16, 17, 32])
+    return {'kind': 'buffer', 'w': d.choice([64, 32]), 'data': data, 'fill': d.int(0, 255), 'count': count, 'op': d.choice(['input_line', 'print_text', 'print_line', 'fill', 'copy'])}
 
 
 def families(tier):
